@@ -73,6 +73,10 @@ def cases(tier):
                 if n == 0 and src != "stored":
                     continue
                 yield {"k": "range", "ticks": [str(t) for t in ticks], "src": src}
+            # integer-typed linked tick arrays (the ticks are whatever the array holds, in the array's element type)
+            if n and all(t.denominator == 1 for t in ticks):
+                for dt in ["int16", "float32"] + (["uint8", "uint64"] if all(t >= 0 for t in ticks) else []):
+                    yield {"k": "range", "ticks": [str(t) for t in ticks], "src": "linked", "dtype": dt}
     if tier == "thorough":
         # wider tick alphabet and longer vectors (stored and linked)
         for n in range(1, 6):
@@ -217,14 +221,56 @@ def check_range(r, kind, dim, a, b, sname, smode, exp, cls, ctx):
 
 
 class Session:
-    def __init__(self):
+    """one file per case; a DECOY block created first holds arrays with the names the scenarios use ("d", "ticks")
+    whose first dimension has the same kind but other parameters; it is evaluated before and after the scenario
+    (anything remembered per name instead of per entity would answer one of the two with the other's geometry)"""
+
+    def __init__(self, r=None, kind=None):
         env.install_seams()
         env.reset_execution()
+        self.r, self.kind = r, kind
         self.path = env.fresh_path("c07_")
         self.f = nix.File.open(self.path, nix.FileMode.Overwrite)
+        self.decoy = None
+        if kind is not None:
+            b0 = self.f.create_block("a-decoy", "t")
+            dd = b0.create_data_array("d", "t", data=np.arange(8.0))
+            if kind == "sampled":
+                dim = dd.append_sampled_dimension(13.0)
+                dim.offset = -5.0
+            elif kind == "range":
+                tk = b0.create_data_array("ticks", "t", data=np.array([100.0, 200.0, 300.0]))
+                dim = dd.append_range_dimension()
+                dim.link_data_array(tk, [-1])
+            else:
+                dim = dd.append_set_dimension(["z%d" % i for i in range(7)])
+            self.decoy = dim
+            self.decoy_check("before")
         self.b = self.f.create_block("b", "t")
 
+    def decoy_check(self, when):
+        dim, kind = self.decoy, self.kind
+        if kind == "sampled":
+            got = (int(dim.index_of(8.0)), int(dim.index_of(9.0, IndexMode.GreaterOrEqual)), dim.range_indices(-5.0, 21.0, SliceMode.Inclusive))
+            exp = (1, 2, (0, 2))
+        elif kind == "range":
+            got = (int(dim.index_of(250.0)), int(dim.index_of(250.0, IndexMode.GreaterOrEqual)), dim.range_indices(100.0, 300.0, SliceMode.Exclusive))
+            exp = (1, 2, (0, 1))
+        else:
+            got = (int(dim.index_of(5.0)), int(dim.index_of(4.5, IndexMode.GreaterOrEqual)), dim.range_indices(1.0, 6.0, SliceMode.Inclusive))
+            exp = (5, 5, (1, 6))
+        got = (got[0], got[1], None if got[2] is None else (int(got[2][0]), int(got[2][1])))
+        if got != exp and self.r is not None:
+            self.r.viol("C07|decoy-block-same-names|%s|%s" % (kind, when),
+                        "a %s dimension of the equally named array in ANOTHER block answers %r %s the scenario, expected %r" % (kind, got, when, exp), {})
+
     def close(self):
+        try:
+            if self.decoy is not None and self.r is not None and not self.r.violations:
+                self.decoy_check("after")
+        except Exception as e:  # noqa
+            if self.r is not None:
+                self.r.viol("C07|decoy-block-same-names|raises-%s" % type(e).__name__, "evaluating the decoy raises %s" % e, {})
         env.safe_close(self.f)
         env.rm(self.path)
 
@@ -236,7 +282,7 @@ def run_sampled(case, r):
     off = None if case["off"] is None else Fr(case["off"])
     o = off if off is not None else Fr(0)
     k0, k1 = case["kr"]
-    s = Session()
+    s = Session(r, "sampled")
     try:
         da = s.b.create_data_array("d", "t", data=np.arange(8.0))
         dim = da.append_sampled_dimension(float(iv))
@@ -323,7 +369,7 @@ def run_sampled(case, r):
 
 def run_range(case, r):
     ticks = [Fr(t) for t in case["ticks"]]
-    s = Session()
+    s = Session(r, "range")
     try:
         n = len(ticks)
         da = s.b.create_data_array("d", "t", data=np.arange(float(max(n, 1))))
@@ -338,7 +384,7 @@ def run_range(case, r):
             if src == "ticks-arg":
                 kw = {"ticks": tuple(fticks)}        # documented optional argument: the ticks of this dimension
         elif src == "linked":
-            tda = s.b.create_data_array("ticks", "t", data=np.array(fticks))
+            tda = s.b.create_data_array("ticks", "t", data=np.array(fticks, dtype=case.get("dtype", "float64")))
             dim = da.append_range_dimension()
             dim.link_data_array(tda, [-1])
         elif src == "linked2d":
@@ -364,7 +410,7 @@ def run_range(case, r):
             r.viol("C07|range.ticks|%s|wrong-ticks" % case["src"],
                    "ticks read back %r, expected %r" % (dim2.ticks, fticks), {})
             return
-        ctx = "ticks=%r (%s)" % (fticks, case["src"])
+        ctx = "ticks=%r (%s%s)" % (fticks, case["src"], " " + case["dtype"] if case.get("dtype") else "")
         strict = all(a < b for a, b in zip(ticks, ticks[1:]))
         rep = "strict" if strict else "repeated"
 
@@ -407,7 +453,7 @@ def run_range(case, r):
 
 def run_set(case, r):
     n = case["n"]
-    s = Session()
+    s = Session(r, "set")
     try:
         da = s.b.create_data_array("d", "t", data=np.arange(float(max(n, 1))))
         labels = ["l%d" % i for i in range(n)]
@@ -441,7 +487,7 @@ def run_roundtrip(case, r):
     """converting the position of sample i back yields i - for intervals/offsets that are not exactly
     representable (the position is the one the library itself reports for sample i)"""
     iv, off, n = case["iv"], case["off"], case["n"]
-    s = Session()
+    s = Session(r, "sampled")
     try:
         da = s.b.create_data_array("d", "t", data=np.arange(8.0))
         dim = da.append_sampled_dimension(iv)
